@@ -7,6 +7,8 @@ EXCL = ("timeoutread.o", "timeoutwrite.o")
 
 def main(tier, replay=None):
     res = Result("C09", tier, "exploration")
+    if replay:
+        return vk_replay("C09", replay)
     rd = rundir("C09")
     src = scratch_build(rd, "asan")
     extra = [w for w in load_line(src, "qmail-rspawn") if w not in load_line(src, "qmail-remote") and w != "spawn.o"]
@@ -27,12 +29,21 @@ def main(tier, replay=None):
                 sh_("smtp 3 1 0", "smtp tree n=3, single+multi-line", 8) +
                 [("%s report 7" % exe, "report() outputs<=7")])
     res.run_parallel(jobs)
+    # process level: the spawner must relay the child's fate, whatever the order of end-of-file on the report pipe and SIGCHLD
+    vk_build()
+    plain = scratch_build(rd, "plain")
+    pb = 2 if tier == "quick" else 4
+    for prog in ("rspawn", "lspawn"):
+        vk_run(res, "c18spawn", plain, rd, "%d,0,0,0" % pb, pb, 1500, "%s-relays-child-fate" % prog, opts=["family=fate", "prog=" + prog])
     res.rule = ("depth-first enumeration of the complete tree of server scripts: at each phase (greeting, HELO, MAIL, each RCPT, DATA, "
                 "final dot) every answer of the phase's pool (reply codes of classes 2xx-5xx incl. boundary codes 399/400/499/500/599 in "
                 "single-line, multi-line and odd forms; garbage reply; disconnect or stall before / inside a reply), pruned only where the "
                 "reference says the client has finished; variants = every single split point of the reply stream, 1-byte reads, replies sent "
                 "ahead of the commands, each client write failing; each run executes the real smtp() and (n=1) feeds its output to the real "
                 "report(); report() alone on every (status, output) pair; non-trivial = scripts (each distinct by construction)")
+    res.rule += ("; process level (VK): the real qmail-rspawn and qmail-lspawn with a scripted delivery program that prints one of 9 "
+                 "reports, closes its output and then exits 0/1/100/111 or dies from SIGSEGV/SIGKILL, under every interleaving of spawner and "
+                 "child within the preemption bound (%d): the relayed status must follow the child's fate (crash/111 -> Z, other failure -> D)" % pb)
     res.assumptions = ["reference verdict function written from qmail-remote(8) and the property statement (seq/c09_remote.c ref_verdict)",
                        "network = harness stand-ins for timeoutread/timeoutwrite; DNS/connect phase not exercised here"]
     res.require_nonzero("evaluations", "verdict_K", "verdict_Z", "verdict_D", "possible_duplicate", "chained_into_report")
